@@ -146,4 +146,57 @@ theorem adjustRange_untouched (data a b : Name)
     exact adjustPart_untouched a b part (h cr hcr rr hrr part hpart)
   rw [this, render_parse]
 
+
+theorem quoted_of_isQuoted (part : Name) (hq : isQuoted part = true) (hne : part ≠ [quoteChar]) :
+    part = quoted (unquote part) := by
+  cases part with
+  | nil => simp [isQuoted] at hq
+  | cons c rest =>
+    unfold isQuoted at hq
+    simp only [List.head?_cons, Bool.and_eq_true, beq_iff_eq, Option.some.injEq] at hq
+    obtain ⟨hc, hl⟩ := hq
+    subst hc
+    rcases List.eq_nil_or_concat rest with rfl | ⟨init, b, hrest⟩
+    · exact absurd rfl hne
+    · rw [List.concat_eq_append] at hrest
+      subst hrest
+      have hb : b = quoteChar := by
+        rw [getLast?_cons_concat] at hl
+        exact Option.some.inj hl
+      subst hb
+      show quoted init = quoted (unquote (quoted init))
+      rw [unquote_quoted]
+
+/-- every component other than the lone apostrophe whose unquoted form differs from the renamed sheet is byte-identical -/
+theorem adjustPart_other_general (a b part : Name) (hne : part ≠ [quoteChar])
+    (hin : (if isQuoted part then unquote part else part) ≠ a) : adjustPart a b part = part := by
+  cases hq : isQuoted part with
+  | false =>
+    rw [hq] at hin
+    exact adjustPart_other a b part hq (by simpa using hin)
+  | true =>
+    rw [hq] at hin
+    have hp := quoted_of_isQuoted part hq hne
+    rw [hp]
+    exact adjustPart_other_quoted a b (unquote part) (by simpa using hin)
+
+/-- a whole text is byte-identical when no component is the lone apostrophe or names the renamed sheet -/
+theorem adjustRange_untouched_general (data a b : Name)
+    (h : ∀ cellRef ∈ parseRef data, ∀ rangeRef ∈ cellRef, ∀ part ∈ rangeRef,
+      part ≠ [quoteChar] ∧ (if isQuoted part then unquote part else part) ≠ a) :
+    adjustRange data a b = data := by
+  unfold adjustRange
+  have : ((parseRef data).map fun cellRef => cellRef.map fun rangeRef => rangeRef.map (adjustPart a b)) = parseRef data := by
+    conv => rhs; rw [← List.map_id (parseRef data)]
+    apply List.map_congr_left
+    intro cr hcr
+    conv => rhs; rw [id, ← List.map_id cr]
+    apply List.map_congr_left
+    intro rr hrr
+    conv => rhs; rw [id, ← List.map_id rr]
+    apply List.map_congr_left
+    intro part hpart
+    exact adjustPart_other_general a b part (h cr hcr rr hrr part hpart).1 (h cr hcr rr hrr part hpart).2
+  rw [this, render_parse]
+
 end XlModel.Sheets
